@@ -40,6 +40,16 @@ fn arms_length<K: Kit>(b: &crate::catalog::Base, d: f64) -> (crate::kit::V, crat
     (K::to_v(&a), K::to_v(&c))
 }
 
+/// The state at distance `d` from the start on the way to the first goal sample.
+fn at_distance<K: Kit>(b: &crate::catalog::Base, d: f64) -> crate::kit::V {
+    let sp = K::build(&b.spec);
+    let s = K::from_v(&b.alphabet[b.start]);
+    let g = K::from_v(&b.goal_samples[0]);
+    let mut out = s.clone();
+    sp.interpolate(&s, &g, d / sp.distance(&s, &g), &mut out);
+    K::to_v(&out)
+}
+
 pub fn scenarios(prop: &str, tier: &str) -> Vec<Scenario> {
     let thorough = tier != "quick";
     let mut out = Vec::new();
@@ -102,6 +112,20 @@ pub fn scenarios(prop: &str, tier: &str) -> Vec<Scenario> {
                     sc.goal_root = root;
                     out.push(sc);
                 }
+            }
+        }
+        // a sample whose distance from its nearest node is a hair ABOVE the step (step + 0.05 L): it is steered
+        // to exactly one step like any farther sample, not adopted because "the rest is below the resolution"
+        if prop == "C16" {
+            let l = crate::refspace::lvs(&b.spec);
+            for &pk in &planners {
+                let mut sc = b.scenario(b.world_free(), b.params(pk, 1.0, 1.5, 0.0), &format!("{prop}/{kit}/free/{}x1/hair-above-the-step", pk.name()));
+                let band = with_kit!(kit, at_distance(&b, sc.params.step + 0.05 * l));
+                let mut letters: Vec<crate::kit::V> = vec![b.alphabet[b.start].clone()];
+                letters.extend(b.sub4.iter().map(|&i| b.alphabet[i as usize].clone()));
+                letters.push(band);
+                sc.alphabet = letters;
+                out.push(sc);
             }
         }
         // a planner object that has LIVED BEFORE: setup, several iterations on other samples, setup again
